@@ -781,6 +781,16 @@ func (p *c10MarkPatcher) Exit(node *ast.Node) {
 	}
 }
 
+// replaces the unknown identifier ZZ by the integer 0
+type c10ZZPatcher struct{}
+
+func (c10ZZPatcher) Enter(*ast.Node) {}
+func (c10ZZPatcher) Exit(node *ast.Node) {
+	if id, ok := (*node).(*ast.IdentifierNode); ok && id.Value == "ZZ" {
+		ast.Patch(node, &ast.IntegerNode{Value: 0})
+	}
+}
+
 type c10E2E struct {
 	position string
 	src      string // contains M / MS
@@ -919,6 +929,31 @@ func c10EndToEnd(rep *Report) {
 		}
 		if gerr != nil || !reflect.DeepEqual(got, want) {
 			rep.fail(Failure{Key: "C10-e2e-operator", What: "operator overloading does not apply at position: " + c.position, Input: input,
+				Want: fmt.Sprintf("%v (= explicit call)", want), Got: fmt.Sprintf("%v (error %v)", got, gerr), Replay: string(rp)})
+		}
+	}
+	// operator overloading TOGETHER with a user visitor that repairs an expression which does not type-check before
+	// the patch (an unknown name ZZ elsewhere in the expression): the overload must still apply
+	for _, c := range []c10E2E{
+		{"overloaded operator as indexed operand, unknown name repaired by a visitor in the index", "(V + W)[ZZ]"},
+		{"overloaded operator as argument, unknown name repaired elsewhere", "len(V + W) + ZZ"},
+		{"overloaded operator as array element next to a repaired name", "[ZZ, (V + W)[0]][1]"},
+		{"overloaded operator in a branch chosen by a repaired name", "ZZ == 0 ? (V + W)[1] : 0"},
+		{"overloaded operator in closure body, repaired name in the collection", "map([ZZ], {(V + W)[2] + #})"},
+	} {
+		rep.Evaluations++
+		rep.hist("e2e " + c.position)
+		got, gerr := c10RunSrc(c.src, expr.Operator("+", "AddVec"), expr.Patch(c10ZZPatcher{}))
+		want, werr := c10RunSrc(strings.ReplaceAll(strings.ReplaceAll(c.src, "V + W", "AddVec(V, W)"), "ZZ", "0"))
+		input := map[string]interface{}{"e2e": c.src, "operator": "+ => AddVec", "visitor": "ZZ := 0", "position": c.position}
+		rp, _ := json.Marshal(input)
+		if werr != nil {
+			rep.fail(Failure{Key: "C10-e2e-baseline", What: "the explicit-call form does not compile and run", Input: input,
+				Want: "a result", Got: werr.Error(), Replay: string(rp)})
+			continue
+		}
+		if gerr != nil || !reflect.DeepEqual(got, want) {
+			rep.fail(Failure{Key: "C10-e2e-operator", What: "operator overloading does not apply when a user visitor repairs the expression: " + c.position, Input: input,
 				Want: fmt.Sprintf("%v (= explicit call)", want), Got: fmt.Sprintf("%v (error %v)", got, gerr), Replay: string(rp)})
 		}
 	}
